@@ -753,28 +753,40 @@ pub fn check_cmd(id: &str, tier: Tier) -> i32 {
     let comps = [Comp::None, Comp::Zstd(5), Comp::Lz4(3), Comp::Lzma(3)];
     let mut specs: Vec<(String, ContainerSpec)> = vec![];
     let s32 = seed as u32;
-    match (id, tier) {
-        ("C04", Tier::Quick) | ("C05", Tier::Quick) => {
-            specs.push(("A-one-none".into(), base_spec(0, Packaging::OneFile, Comp::None, s32)));
-            specs.push(("A-two-zstd".into(), base_spec(0, Packaging::TwoFiles, Comp::Zstd(5), s32)));
-            specs.push(("B-no-lz4".into(), base_spec(1, Packaging::NoConcat, Comp::Lz4(3), s32)));
-            specs.push(("B-one-lzma".into(), base_spec(1, Packaging::OneFile, Comp::Lzma(3), s32)));
-        }
-        ("C06", Tier::Quick) => {
-            for (i, c) in comps.iter().enumerate() {
-                specs.push((format!("{}-one-{}", if i % 2 == 0 { "A" } else { "B" }, c.name()), base_spec(i, Packaging::OneFile, *c, s32)));
-            }
-            specs.push(("B-two-zstd".into(), base_spec(1, Packaging::TwoFiles, Comp::Zstd(5), s32)));
-        }
-        _ => {
-            for (ci, c) in comps.iter().enumerate() {
-                for (pi, p) in Packaging::ALL.iter().enumerate() {
-                    for shape in 0..2 {
-                        let _ = (ci, pi);
-                        specs.push((format!("{}-{:?}-{}", if shape == 0 { "A" } else { "B" }, p, c.name()), base_spec(shape, *p, *c, s32)));
-                    }
+    // quick: 12 small bases (C06: both profiles) / 24 (C04, C05); thorough: all 24 + generated larger ones
+    for (ci, c) in comps.iter().enumerate() {
+        for (pi, p) in Packaging::ALL.iter().enumerate() {
+            for shape in 0..2 {
+                if tier == Tier::Quick && id == "C06" && (ci + pi + shape) % 2 == 1 {
+                    continue;
                 }
+                specs.push((format!("{}-{:?}-{}", if shape == 0 { "A" } else { "B" }, p, c.name()), base_spec(shape, *p, *c, s32)));
             }
+        }
+    }
+    let mut big_specs: Vec<(String, ContainerSpec)> = vec![];
+    if tier == Tier::Thorough {
+        use proptest::strategy::{Strategy, ValueTree};
+        let mut runner = proptest::test_runner::TestRunner::new_with_rng(
+            proptest::test_runner::Config::default(),
+            proptest::test_runner::TestRng::from_seed(proptest::test_runner::RngAlgorithm::ChaCha, &{
+                let mut b = [0u8; 32];
+                b[..8].copy_from_slice(&splitmix(seed ^ hash_str(id)).to_le_bytes());
+                b
+            }),
+        );
+        let strat = container_strategy(1, dir_strategy(SizeClass::Medium, SortMode::Sometimes, true, true));
+        let mut k = 0;
+        while big_specs.len() < 8 && k < 200 {
+            k += 1;
+            let mut spec = strat.new_tree(&mut runner).unwrap().current();
+            spec.comp = comps[k % 4];
+            spec.packaging = Packaging::ALL[k % 3];
+            // more content so that several clusters of both kinds exist
+            for j in 0..30u32 {
+                spec.contents.push(ContentSpec { len: 500 + 97 * j, ent: if j % 2 == 0 { Entropy::Text } else { Entropy::High }, seed: s32 ^ j, hint: if j % 3 == 0 { Hint::No } else { Hint::Yes }, source: Source::Mem, dup_of: None });
+            }
+            big_specs.push((format!("gen{}-{:?}-{}", big_specs.len(), spec.packaging, spec.comp.name()), spec));
         }
     }
     // a different valid container, used by "replace by another container"
@@ -799,10 +811,21 @@ pub fn check_cmd(id: &str, tier: Tier) -> i32 {
             }
         }
     }
+    let n_small = bases.len();
+    for (name, spec) in &big_specs {
+        match make_base(name, spec, scratch.path(), other.clone()) {
+            Ok(b) => bases.push(b),
+            Err(f) => {
+                // generated specs may hit creation refusals; skip those
+                eprintln!("note: generated base {name} skipped: {} {}", f.sig, f.msg);
+            }
+        }
+    }
     let profiles: Vec<Profile> = if id == "C06" || tier == Tier::Thorough { vec![Profile::Release, Profile::Dbg] } else { vec![Profile::Release] };
     let mut runner = Runner { bases: Arc::new(bases), scratch: scratch.path().to_path_buf(), restarts: AtomicUsize::new(0) };
 
     // ---- pristine dumps (self-check of the child protocol: must read cleanly and agree across profiles)
+    let violations_before_pristine = summary.violations.len();
     {
         let mut pr: Vec<BTreeMap<Profile, FDump>> = vec![];
         for bi in 0..runner.bases.len() {
@@ -836,7 +859,7 @@ pub fn check_cmd(id: &str, tier: Tier) -> i32 {
         }
         runner.bases = Arc::new(bases);
     }
-    if !summary.violations.is_empty() {
+    if summary.violations.len() > violations_before_pristine {
         return finish_faults(id, tier, seed, t0, summary, &runner);
     }
 
@@ -849,17 +872,18 @@ pub fn check_cmd(id: &str, tier: Tier) -> i32 {
         rng
     };
     for (bi, base) in runner.bases.iter().enumerate() {
+        let small = bi < n_small;
         match id {
             "C04" => {
                 for (fi, uuid, start, check_pos, end) in base.checked_ranges() {
-                    for pos in start..end {
+                    for pos in start..(if small { end } else { start }) {
                         let _ = check_pos;
                         for m in masks {
                             cases.push((FaultCase { base: bi, edits: vec![Edit::Xor { file: fi, pos: pos as u32, mask: *m }] }, Some((fi, uuid.clone()))));
                         }
                     }
                     // multi-position and range scripts inside the range
-                    let nmulti = if tier == Tier::Thorough { 400 } else { 60 };
+                    let nmulti = if !small { 1500 } else if tier == Tier::Thorough { 400 } else { 60 };
                     for _ in 0..nmulti {
                         let k = 2 + (next() % 7) as usize;
                         let edits = (0..k)
@@ -878,12 +902,12 @@ pub fn check_cmd(id: &str, tier: Tier) -> i32 {
             }
             "C05" => {
                 for (fi, d) in base.data.iter().enumerate() {
-                    for pos in 0..d.len() {
+                    for pos in 0..(if small { d.len() } else { 0 }) {
                         for m in masks {
                             cases.push((FaultCase { base: bi, edits: vec![Edit::Xor { file: fi, pos: pos as u32, mask: *m }] }, None));
                         }
                     }
-                    let nrange = if tier == Tier::Thorough { 6000 } else { 500 };
+                    let nrange = if !small { 20000 } else if tier == Tier::Thorough { 6000 } else { 500 };
                     for _ in 0..nrange {
                         // stratified per structure: pick a region, then a position in it
                         let pos = match base.maps[fi].as_ref().filter(|m| !m.regions.is_empty()) {
@@ -909,11 +933,17 @@ pub fn check_cmd(id: &str, tier: Tier) -> i32 {
             }
             _ => {
                 for (fi, d) in base.data.iter().enumerate() {
-                    for len in 0..d.len() {
-                        cases.push((FaultCase { base: bi, edits: vec![Edit::Truncate { file: fi, len: len as u32 }] }, None));
+                    if small {
+                        for len in 0..d.len() {
+                            cases.push((FaultCase { base: bi, edits: vec![Edit::Truncate { file: fi, len: len as u32 }] }, None));
+                        }
+                    } else {
+                        for _ in 0..3000 {
+                            cases.push((FaultCase { base: bi, edits: vec![Edit::Truncate { file: fi, len: (next() % d.len().max(1) as u64) as u32 }] }, None));
+                        }
                     }
                     let c06masks: &[u8] = if tier == Tier::Thorough { &[0x01, 0x80, 0xFF] } else { &[0x01, 0xFF] };
-                    for pos in 0..d.len() {
+                    for pos in 0..(if small { d.len() } else { 0 }) {
                         for m in c06masks {
                             cases.push((FaultCase { base: bi, edits: vec![Edit::Xor { file: fi, pos: pos as u32, mask: *m }] }, None));
                         }
@@ -926,7 +956,7 @@ pub fn check_cmd(id: &str, tier: Tier) -> i32 {
                     for len in [1u32, 4, 63, 64, 65, 300, 4096] {
                         cases.push((FaultCase { base: bi, edits: vec![Edit::Append { file: fi, len, seed: next() as u32 }] }, None));
                     }
-                    let nrange = if tier == Tier::Thorough { 4000 } else { 400 };
+                    let nrange = if !small { 15000 } else if tier == Tier::Thorough { 4000 } else { 400 };
                     for _ in 0..nrange {
                         let pos = match base.maps[fi].as_ref().filter(|m| !m.regions.is_empty()) {
                             Some(m) => {
